@@ -132,3 +132,6 @@ Proof. intros [|a]; simpl; congruence. Qed.
 
 Lemma zops_null_unique nullable nullv : forall x, is_null (zops nullable nullv) x = true -> x = null (zops nullable nullv).
 Proof. intros x. simpl. destruct nullable; simpl; [|discriminate]. intros H. now apply Z.eqb_eq in H. Qed.
+
+Lemma fops_add_null : forall a b, is_null fops a = true \/ is_null fops b = true -> is_null fops (add fops a b) = true.
+Proof. intros [|a] [|b] [H|H]; simpl in *; congruence. Qed.
